@@ -238,6 +238,14 @@ def _history(tape, ctx, case, rig, probes, faults, allow_cancel):
         model_h.update(label.encode())
         model_h.update(repr(snap(obj)).encode())
 
+    # a refit may use a different training subset (same estimator object, new data): the twin follows
+    train_sets = [list(case.train_ids)]
+    if case.has_transform and len(case.pool) > len(case.train_ids) >= 2:
+        k = len(case.train_ids)
+        train_sets.append(list(range(len(case.pool) - k, len(case.pool))))
+    cur_train = train_sets[0]
+    can_alt_vectors = isinstance(case, A.WassersteinCase) and case.which not in ("ApproxW", "W-heuristic")
+
     primary, p_objs = case.new_estimator()
     fitted = False
     fit_method = None
@@ -247,9 +255,9 @@ def _history(tape, ctx, case, rig, probes, faults, allow_cancel):
     def fresh_fit(method, role, seed_perturb, **fault):
         """Fit a fresh estimator (twin) fault-free; returns (est, pobjs, status, value, info)."""
         est, pobjs = case.new_estimator()
-        X, kw = case.build(case.train_ids, for_fit=True)
-        kw.update(case.fit_extra(case.train_ids))
-        case._n_for_call = len(case.train_ids)
+        X, kw = case.build(cur_train, for_fit=True)
+        kw.update(case.fit_extra(cur_train))
+        case._n_for_call = len(cur_train)
         np.random.seed(seed_perturb)
         st, val, info = rig.call(est, pobjs, method, lambda X_, kw_: case.call_fit(est, method, X_, kw_), X, kw,
                                  role=role, is_generator=is_gen)
@@ -289,7 +297,7 @@ def _history(tape, ctx, case, rig, probes, faults, allow_cancel):
         at = tape.draw("f.cancel_at", info["lines"])
         return ("cancel", at, None, f"cancel@{at}")
 
-    def primary_call(opname, ids, fn_kind, fault):
+    def primary_call(opname, ids, fn_kind, fault, alt=False):
         """Run fit / fit_transform / transform on the primary with an optional fault."""
         bkw = {}
         label = None
@@ -306,6 +314,8 @@ def _history(tape, ctx, case, rig, probes, faults, allow_cancel):
                 bkw.update(invalid_at=fault[1], invalid_kind=fault[2])
             elif fault[0] == "cancel":
                 cancel_at = fault[1]
+        if alt:
+            bkw["alt_vectors"] = True
         X, kw = case.build(ids, for_fit=fn_kind != "transform", **bkw) if bkw else case.build(ids, for_fit=fn_kind != "transform")
         case._n_for_call = len(ids)
         if fn_kind == "transform":
@@ -331,14 +341,18 @@ def _history(tape, ctx, case, rig, probes, faults, allow_cancel):
             op = tape.weighted("h.op", choices)
         if op in ("fit", "refit"):
             method = tape.choice("h.fit_method", list(case.fit_methods))
+            if op == "refit" and len(train_sets) > 1:
+                cur_train = train_sets[tape.weighted("h.train_set", [(2, 0), (1, 1)])]
+                if cur_train is train_sets[1]:
+                    probes.hit("refit-on-different-data")
             # rehearsal on a pristine twin (fault-free configuration), perturbed global RNG
             twin, t_objs, tst, tval, tinfo = fresh_fit(method, "twin", seed_b + opi)
             if tst == "exc" and isinstance(tval, SimCancel):
                 raise HarnessError("cancel fired in a rehearsal")
-            fault = draw_fault("fit", tinfo, len(case.train_ids)) if opi > 0 or tape.chance("h.fault_first_fit", 1, 2) else None
+            fault = draw_fault("fit", tinfo, len(cur_train)) if opi > 0 or tape.chance("h.fault_first_fit", 1, 2) else None
             np.random.seed(seed_a + opi)
             old_state = primary if fitted else None
-            pst, pval, pinfo, fired = primary_call(method, case.train_ids, method, fault)
+            pst, pval, pinfo, fired = primary_call(method, cur_train, method, fault)
             ops_log.append({"op": method, "fault": fault[3] if fault else None, "fired": fired, "outcome": pst if pst == "ok" else type(pval).__name__})
             hist_kinds.append(method + ("+" + fault[0] if fault and fired else ""))
             if tinfo["io_ops"]:
@@ -387,6 +401,10 @@ def _history(tape, ctx, case, rig, probes, faults, allow_cancel):
         # ---- transform of batch b
         b = tape.draw("h.batch", len(batches))
         ids = batches[b]
+        alt = bool(can_alt_vectors and tape.chance("h.alt_vectors", 1, 4))
+        if alt:
+            probes.hit("transform-with-second-vector-table")
+            b = (b, "alt")
         if b not in memo:
             twin, t_objs, tst, tval, tinfo = fresh_fit(fit_method, "twin", seed_b + 100 + opi)
             if tst == "exc":
@@ -396,15 +414,15 @@ def _history(tape, ctx, case, rig, probes, faults, allow_cancel):
             if d:
                 raise Violation(_repro_sig(case, f"C13|{tag}|transform-changed-fitted-state-or-same-seed-different-model"),
                                 f"fitted attributes of the primary differ from a fresh identical fit: {d}", desc)
-            X, kw = case.build(ids)
+            X, kw = case.build(ids, alt_vectors=True) if alt else case.build(ids)
             case._n_for_call = len(ids)
             st, val, info = rig.call(twin, t_objs, "transform", lambda X_, kw_: case.call_transform(twin, X_, kw_), X, kw,
                                      role="twin", is_generator=is_gen)
             memo[b] = (st, val if st == "ok" else type(val).__name__, info, str(val)[:200] if st == "exc" else "")
         mst, mval, minfo, mtext = memo[b]
         fault = draw_fault("transform", minfo, len(ids))
-        pst, pval, pinfo, fired = primary_call("transform", ids, "transform", fault)
-        ops_log.append({"op": f"transform(B{b},n={len(ids)})", "fault": fault[3] if fault else None, "fired": fired,
+        pst, pval, pinfo, fired = primary_call("transform", ids, "transform", fault, alt)
+        ops_log.append({"op": f"transform(B{b if not alt else str(b[0]) + 'alt'},n={len(ids)})", "fault": fault[3] if fault else None, "fired": fired,
                         "outcome": pst if pst == "ok" else type(pval).__name__})
         hist_kinds.append("transform" + ("+" + fault[0] if fault and fired else ""))
         if any(o.get("fired") and o["op"].startswith("transform") for o in ops_log[:-1]):
